@@ -197,3 +197,84 @@ def check_repickle_after_mutation(kind: int, keep: bool, x: int, delta: int) -> 
     if not _same_behaviour(second, ref, x, "a") or not _same_behaviour(second, ref, x, "method"):
         return False
     return first.a == old_a and isinstance(second, CloudpickledObjectWrapper) == bool(keep)
+
+
+def _toplevel(x):
+    return x - 11
+
+
+def _main_fn(x):
+    return x + 100
+
+
+_main_fn.__module__ = "__main__"  # what an interactively defined function looks like
+
+
+def _auto_exemplar(i, p, q):
+    from functools import partial
+    base = [lambda x: x * 7, _closure(5), _main_fn, _toplevel, _Callable(6), len][i % 6]
+    if i < 6:
+        return base, None
+    # partial objects: func, positional and keyword arguments are inspected recursively
+    two = [lambda f, g, x, h=None: (f(x), g(x), h(x) if h else None)][0]
+    f = [lambda x: x + p, _closure(p), _toplevel][i % 3]
+    return partial(two, f, _closure(q), h=(lambda x: x * q)), (f, q)
+
+
+def check_wrap_when_needed(kind: int, p: int, q: int, x: int, trips: int) -> bool:
+    """
+    pre: 0 <= kind <= 8 and 0 <= p <= 2 and 0 <= q <= 2 and 0 <= x <= 3 and 1 <= trips <= 2
+    post: _
+    """
+    # the parameters are concretised by branching and the body runs outside the tracer: cloudpickle's by-value
+    # reconstruction of functions is C-level work that CrossHair's interception distorts (measured: a partial of
+    # lambdas compared unequal under the tracer and equal concretely).  Finite domain, every point visited.
+    kind, p, q, x, trips = _conc(kind, 8), _conc(p, 2), _conc(q, 2), _conc(x, 3), _conc(trips, 2)
+    try:
+        from crosshair.tracers import NoTracing, is_tracing
+    except ImportError:
+        return _wrap_when_needed_body(kind, p, q, x, trips)
+    if is_tracing():
+        with NoTracing():
+            return _wrap_when_needed_body(kind, p, q, x, trips)
+    return _wrap_when_needed_body(kind, p, q, x, trips)
+
+
+def _wrap_when_needed_body(kind, p, q, x, trips):
+    from functools import partial
+    from loky.cloudpickle_wrapper import _wrap_objects_when_needed
+    ref, parts = _auto_exemplar(kind, p, q)
+    got = _wrap_objects_when_needed(ref)
+    arg = [x] if kind != 5 else [[0] * x]
+    if callable(got) != callable(ref) or got(*arg) != ref(*arg):
+        return False
+    needs = kind in (0, 1, 2)  # lambda, nested function, defined in __main__
+    if parts is None:
+        if needs:
+            # wrapped so that it travels by value and arrives *unwrapped*; one wrapper per object
+            if not isinstance(got, CallableObjectWrapper) or got._obj is not ref or got._keep_wrapper is not False:
+                return False
+            if _wrap_objects_when_needed(ref) is not got:
+                return False
+        elif got is not ref:
+            return False  # importable objects are left alone
+    else:
+        if not isinstance(got, partial) or isinstance(got, CloudpickledObjectWrapper):
+            return False
+        if len(got.args) != len(ref.args) or set(got.keywords) != set(ref.keywords):
+            return False
+        inner_needs = parts[0] is not _toplevel
+        if isinstance(got.args[0], CloudpickledObjectWrapper) != inner_needs:
+            return False
+        if not all(isinstance(v, CloudpickledObjectWrapper) for v in (got.func, got.args[1], got.keywords["h"])):
+            return False
+    cur = got
+    for _ in range(trips):
+        # plain pickle must now work, and nothing arrives wrapped; what arrived is prepared again before it is re-sent
+        cur = pickle.loads(pickle.dumps(cur if cur is got else _wrap_objects_when_needed(cur)))
+        if isinstance(cur, CloudpickledObjectWrapper) or cur(*arg) != ref(*arg):
+            return False
+        if isinstance(cur, partial) and any(isinstance(v, CloudpickledObjectWrapper)
+                                            for v in (cur.func, *cur.args, *cur.keywords.values())):
+            return False
+    return True
